@@ -15,6 +15,9 @@ def dispatch (line : String) : String :=
   | "intbytes" :: args => Driver.Hashcons.handleIntBytes args
   | "pyhash" :: args => Driver.Hashcons.handlePyHash args
   | "aser" :: args => Driver.Hashcons.handleSer args
+  | "replace" :: args => Driver.Expr.handleReplace (Driver.Expr.tokenize (" ".intercalate args))
+  | "canon" :: args => Driver.Expr.handleCanon (Driver.Expr.tokenize (" ".intercalate args))
+  | "itedictplan" :: args => Driver.Expr.handlePlan args
   | "meta" :: args => Driver.Expr.handleMeta (Driver.Expr.tokenize (" ".intercalate args))
   | "rules" :: args => Driver.Expr.handleRules (Driver.Expr.tokenize (" ".intercalate args))
   | _ => "bad-op"
